@@ -427,6 +427,14 @@ func runLoopProp(prop string, r *core.Rng, run, seed uint64, tier string, cov *C
 		}
 	}
 	cov.Probe(fmt.Sprintf("dumps=%d", len(s.Dumps)))
+	for i, l := range s.Lines {
+		if l.Class == gen.Junk && l.End-l.Start >= 16384 {
+			t := bytes.TrimRight(s.Text(i), "\r\n")
+			if bytes.HasSuffix(t, []byte("]:")) || bytes.HasSuffix(t, []byte("==================")) || bytes.HasSuffix(t, []byte("WARNING: DATA RACE")) {
+				cov.Probe("long-line-ending-in-dump-opening")
+			}
+		}
+	}
 	for _, d := range s.Dumps {
 		if d.Race {
 			cov.Probe("race-report")
@@ -612,10 +620,11 @@ func init() {
 	real := []string{"stack.ScanSnapshot", "stack.reader", "scanner state machine", "the documented resume protocol (io.MultiReader(suffix, rest), flush of the remainder on error/EOF)"}
 	register(&Spec{
 		ID: "C02", Level: "exploration",
-		Run:   RunC02,
-		Check: func(c *Case, cov *Cov) []*Violation { return dispatchLoop("C02", c, cov) },
-		Posts: []func(uint64, string, *Cov) ([]*Violation, map[string]any, error){postCLI("C02"), postPPDrive("C02")},
-		Quick: 12000, Thorough: 400000,
+		Run:       RunC02,
+		Check:     func(c *Case, cov *Cov) []*Violation { return dispatchLoop("C02", c, cov) },
+		MustReach: []string{"goroutine-dump", "race-report", "indented-dump", "malformed-dump", "pp-block-points", "pp-file-argument"},
+		Posts:     []func(uint64, string, *Cov) ([]*Violation, map[string]any, error){postCLI("C02"), postPPDrive("C02")},
+		Quick:     12000, Thorough: 400000,
 		Rule:        "one evaluation = the documented resume loop over one generated stream (text and binary junk, long lines, CRLF, look-alike fragments, 0..4 goroutine dumps / race reports with every terminator kind) under one delivery schedule; the output (writer bytes ++ final remainder ++ unread) must be the input minus dump lines and at most one blank line after each dump (line alignment by dynamic programming; junk lines are unique by construction); also the real CLI loop (internal.process) in the clisim stage and the pp binary in the ppdrive stage; distinct_nontrivial = distinct (stream, schedule) pairs with >= 1 dump and a non-trivial schedule",
 		Assumptions: []string{"the generators bound what 'every input' means", "writer faults are not injected (no property quantifies over them)", "GuessPaths/AnalyzeSources off at library level"},
 		Real:        real, Stubs: stubs,
@@ -625,20 +634,22 @@ func init() {
 	})
 	register(&Spec{
 		ID: "C07", Level: "exploration",
-		Run:   RunC07,
-		Check: func(c *Case, cov *Cov) []*Violation { return dispatchLoop("C07", c, cov) },
-		Posts: []func(uint64, string, *Cov) ([]*Violation, map[string]any, error){postCLI("C07")},
-		Quick: 12000, Thorough: 400000,
+		Run:       RunC07,
+		Check:     func(c *Case, cov *Cov) []*Violation { return dispatchLoop("C07", c, cov) },
+		MustReach: []string{"goroutine-dump", "race-report", "indented-dump"},
+		Posts:     []func(uint64, string, *Cov) ([]*Violation, map[string]any, error){postCLI("C07")},
+		Quick:     12000, Thorough: 400000,
 		Rule:        "one evaluation = the resume loop over a generated stream of 1..5 dumps (goroutine dumps incl. indented/CRLF/unavailable/elided variants, race reports) with every terminator kind (junk directly after the last frame / after created-by / after an elision marker; one blank then junk; two blanks; a race report directly or after one blank; end of stream with and without end of line) under one delivery schedule; clauses: one snapshot per dump, each equal to scanning that dump alone, remainder ++ unread equals the stream from the first line after the dump (after its single blank separator), loop terminates; distinct_nontrivial as C02",
 		Assumptions: []string{"scope: the history part of C07 (resume protocol under delivery schedules); the exhaustive (state x line kind) grammar exploration is model checking and is not done (DESIGN 4.3)", "two goroutine dumps are separated by at least one non-blank line or two blank lines", "after an indented dump the first non-blank line carries the indentation (the un-indented case is an error by the author's pinned design)"},
 		Real:        real, Stubs: stubs,
 	})
 	register(&Spec{
 		ID: "C11", Level: "exploration",
-		Run:   RunC11,
-		Check: func(c *Case, cov *Cov) []*Violation { return dispatchLoop("C11", c, cov) },
-		Posts: []func(uint64, string, *Cov) ([]*Violation, map[string]any, error){postCLI("C11"), postPPDrive("C11")},
-		Quick: 12000, Thorough: 400000,
+		Run:       RunC11,
+		Check:     func(c *Case, cov *Cov) []*Violation { return dispatchLoop("C11", c, cov) },
+		MustReach: []string{"block-points", "cli-block-points", "pp-block-points", "pp-fifo-block-points"},
+		Posts:     []func(uint64, string, *Cov) ([]*Violation, map[string]any, error){postCLI("C11"), postPPDrive("C11")},
+		Quick:     12000, Thorough: 400000,
 		Rule:        "one evaluation = the resume loop over one generated stream under one producer schedule; at EVERY block point (a Read that finds nothing available, observed inside that Read) every complete pass-through line delivered so far must already be in the writer, and every dump whose terminating line has been delivered completely must already have been returned; schedules: one-shot, byte-wise, line-by-line, seeded chunkings attracted to line ends with zero/short reads; distinct_nontrivial as C02; probes.block-points counts the observation points",
 		Assumptions: []string{"race header lines ('==================', then 'WARNING: DATA RACE') may be pending only while they are the last complete lines delivered (the statement's one-line look-ahead); every other complete pass-through line must be written", "blank lines are not required at block points (C02 accounts for them at the end)", "for a race report the terminating line is taken to be the line after the closing separator (weaker than what the code does, never stronger than the statement)"},
 		Real:        real, Stubs: stubs,
